@@ -31,7 +31,7 @@ EPS = '1/1000000000'          # tolerance of DESIGN section 8 for float64 paths
 EPS_F = 1e-9
 MARGIN = 1e-7                 # a discrete decision is compared exactly only if its margin exceeds this
 JOB_TIMEOUT = 10.0            # seconds without an answer from a worker = the call does not return
-RETRY_TIMEOUT = 45.0         # a call that gave no answer is run once more, alone, with this limit before it counts as a hang
+RETRY_TIMEOUT = 30.0         # a call that gave no answer is run once more, alone, with this limit before it counts as a hang
 MAX_TIMEOUTS = 6              # after that many calls that do not return, the remaining calls of the same entry point are skipped
 N_WORKERS = 8
 
@@ -334,26 +334,24 @@ def _run_shard(overlay_root, todo, results, tag, budget, timeout=None):
     """todo: list of (i, job). Fills results[i]. Restarts the worker after a crash / time-out."""
     d = os.path.join(VERIF, '.cache', 'c13')
     os.makedirs(d, exist_ok=True)
-    pos = 0
+    remaining = list(todo)
     rounds = 0
-    while pos < len(todo):
+    while remaining:
         # entry points that keep hanging are not called again (each hang costs JOB_TIMEOUT seconds)
         if budget['timeouts'] >= MAX_TIMEOUTS:
-            while pos < len(todo) and job_sig(todo[pos][1])['entry'] in budget['entries']:
-                results[todo[pos][0]] = {'status': 'skipped'}
-                pos += 1
-            if pos >= len(todo):
+            keep = []
+            for i, job in remaining:
+                if job_sig(job)['entry'] in budget['entries']:
+                    results[i] = {'status': 'skipped'}
+                else:
+                    keep.append((i, job))
+            remaining = keep
+            if not remaining:
                 break
         rounds += 1
         path = os.path.join(d, 'jobs_%s_%d_%d.jsonl' % (tag, os.getpid(), rounds))
-        stop_at = len(todo)
-        if budget['timeouts'] >= MAX_TIMEOUTS:
-            for q in range(pos, len(todo)):
-                if job_sig(todo[q][1])['entry'] in budget['entries']:
-                    stop_at = q
-                    break
         with open(path, 'w') as fh:
-            for i, job in todo[pos:stop_at]:
+            for i, job in remaining:
                 fh.write(json.dumps([i, job]) + '\n')
         env = dict(os.environ)
         env.setdefault('OMP_NUM_THREADS', '1')
@@ -364,6 +362,7 @@ def _run_shard(overlay_root, todo, results, tag, budget, timeout=None):
         failed = None
         buf = b''
         started = False
+        done = 0
         try:
             while True:
                 r, _, _ = select.select([fd], [], [], (timeout or JOB_TIMEOUT) if started else 120.0)
@@ -384,18 +383,24 @@ def _run_shard(overlay_root, todo, results, tag, budget, timeout=None):
                         _, i, js = ln.split(' ', 2)
                         results[int(i)] = json.loads(js)
                         current = None
-                        pos += 1
+                        done += 1
+                if budget['timeouts'] >= MAX_TIMEOUTS and current is None and \
+                        any(job_sig(j)['entry'] in budget['entries'] for _, j in remaining[done:]):
+                    break      # another shard found a hanging entry point: restart without its jobs
         finally:
             if p.poll() is None:
                 p.kill()
             p.wait()
-            if pos >= stop_at:
+            if done >= len(remaining):
                 for q in (path, path + '.err'):
                     try:
                         os.remove(q)
                     except OSError:
                         pass
-        if pos >= stop_at:
+        if done >= len(remaining):
+            break
+        if failed is None and current is None and p.returncode in (0, -9):
+            remaining = remaining[done:]        # stopped on purpose between two jobs
             continue
         if failed is None:
             failed = 'crash rc=%s' % p.returncode
@@ -406,8 +411,8 @@ def _run_shard(overlay_root, todo, results, tag, budget, timeout=None):
         results[current] = {'status': 'timeout' if failed == 'timeout' else 'crash', 'detail': failed}
         if failed == 'timeout':
             budget['timeouts'] += 1
-            budget['entries'].add(job_sig(todo[pos][1])['entry'])
-        pos += 1
+            budget['entries'].add(job_sig(remaining[done][1])['entry'])
+        remaining = remaining[done + 1:]
 
 
 def run_jobs(ctx, jobs, root=None):
@@ -620,6 +625,11 @@ def _kth_gap(keys, k):
 
 class Ties:
     skipped = 0
+
+
+class Hanging:
+    """entry points with a confirmed call that does not return in this run: the failing-input search does not call them again"""
+    entries = set()
 
 
 def _same(c, model, impl, spec_ok):
@@ -841,6 +851,8 @@ def run_and_evaluate(ctx, jobs):
             continue
         if res['status'] in ('crash', 'timeout'):
             sig = dict(job_sig(job), failure=res['status'])
+            if res['status'] == 'timeout':
+                Hanging.entries.add(sig['entry'])
             ctx.case(('fail', json.dumps(job, sort_keys=True)), True)
             ctx.spec_fail(sig, job, {'what': 'the call %s on this input' % (
                 'did not return within %.0f s, nor within %.0f s when run alone' % (JOB_TIMEOUT, RETRY_TIMEOUT)
@@ -1206,6 +1218,7 @@ def run_checked_build(ctx, jobs):
 
 def run(ctx):
     Ties.skipped = 0
+    Hanging.entries = set()
     jobs = corpus_jobs()
     ctx.count('corpus', len(jobs))
     jobs += gen_jobs(ctx, scale=1.0 if ctx.quick else 8.0)
@@ -1222,7 +1235,7 @@ def search(ctx, pending):
     from vlib.core import load_findings, match_finding
     sub = Sub(ctx)
     sub.overlay_root = ctx.overlay_root
-    jobs = corpus_jobs() + gen_jobs(sub, mode='search')
+    jobs = [j for j in corpus_jobs() + gen_jobs(sub, mode='search') if job_sig(j)['entry'] not in Hanging.entries]
     run_and_evaluate(sub, jobs)
     # a failing input explains a broken tie only if it is about the same entry point and is not an already
     # recorded finding (those are reported by the main run itself)
